@@ -1,7 +1,9 @@
 """C14 Supply lanes, command lanes and agent-sent commands are never coalesced."""
+import re
+
 from mirlib import op_place, AnchorMissing, describe_call, describe_operand, describe_place, describe_rvalue, dom_guards, guards, _suffix_match
 from rules import uplinks
-from rules.common import ty_of, aggregates, callers_by_name, owner_def, where
+from rules.common import ty_of, aggregates, callers_by_name, owner_def, value_origins, where
 
 META = {
     "explanation": (
@@ -77,6 +79,67 @@ def run(ctx):
         rc = ctx.saw(rt.fn(suffix="receiver::value_or_supply_raw_response"))
         sl = [c for c in rc.calls if c.name == "supply_lane"]
         r.check(len(sl) == 2 and all(any(d == "disc(uplink)" and l == "Supply" for d, l, _ in dom_guards(rc, c.block)) for c in sl), "receiver/Supply=>supply_lane", where(rc), "supply lanes produce ItemResponse::supply_lane (UplinkResponse::Supply)")
+
+    with ctx.rule("C14.R14", "T5+T8", "a lane's kind decides its uplink: supply lanes are registered as supply uplinks on every registration path", floor=8) as r:
+        # WarpLaneKind --uplink_kind()--> UplinkKind --LaneEndpoint.kind--> into_lane_stream --> ResponseReceiver::supply_lane --> UplinkResponse::Supply
+        # (R2 continues from there). A supply lane that is registered with any other uplink kind is served by the overwriting value uplink: items
+        # pushed while the remote's writer is busy are coalesced.
+        api = ctx.crate("swimos_api")
+        uk = ctx.saw(api.fn(name="uplink_kind", self_adt="lane::WarpLaneKind"))
+        lane_kinds = {v["name"] for v in api.adt("lane::WarpLaneKind")["variants"]}
+
+        def kind_table(body, only_return=False):
+            """lane kind -> uplink kinds, read off the constants `UplinkKind::X` built under a match on a WarpLaneKind"""
+            t = {}
+            for i, j, p_, rv, line in body.assigns():
+                if only_return and (p_[0] != 0 or p_[1]):
+                    continue
+                m_ = re.match(r"^UplinkKind::(\w+)\(\)$", describe_rvalue(body, rv))
+                if not m_:
+                    continue
+                for dd, l, _ in dom_guards(body, i):
+                    if dd.startswith("disc(") and set(l.split("|")) <= lane_kinds:
+                        for k_ in l.split("|"):
+                            t.setdefault(k_, set()).add(m_.group(1))
+            return t
+        tab = kind_table(uk, only_return=True)
+        r.check(tab.get("Supply") == {"Supply"}, "WarpLaneKind::uplink_kind/Supply=>Supply", where(uk), "a supply lane has a supply uplink", "WarpLaneKind::Supply is given the uplink kind %s" % sorted(tab.get("Supply", ())))
+        others = sorted(k_ for k_, v in tab.items() if k_ != "Supply" and "Supply" in v)
+        r.check(not others, "WarpLaneKind::uplink_kind/only-Supply=>Supply", where(uk), "no other lane kind is given the supply uplink", "%s are given the supply uplink" % others)
+        for k_ in ("Value", "Command", "Demand"):
+            r.check(tab.get(k_) == {"Value"}, "WarpLaneKind::uplink_kind/%s=>Value" % k_, where(uk), "%s lanes use the value uplink" % k_, "%s lanes are given %s" % (k_, sorted(tab.get(k_, ()))))
+        for k_ in ("Map", "DemandMap", "JoinMap", "JoinValue"):
+            r.check(tab.get(k_) == {"Map"}, "WarpLaneKind::uplink_kind/%s=>Map" % k_, where(uk), "%s lanes use the map uplink" % k_, "%s lanes are given %s" % (k_, sorted(tab.get(k_, ()))))
+        # every place that fills LaneEndpoint.kind takes it from uplink_kind() of the lane's kind (or copies it from another endpoint)
+        n_sites = 0
+        for b in rt.all_bodies():
+            if "::tests" in b.defpath:
+                continue
+            for a in aggregates(b, "task::LaneEndpoint"):
+                fields = [f_[0] for f_ in rt.adt("task::LaneEndpoint")["variants"][0]["fields"]]
+                if "kind" not in fields:
+                    raise AnchorMissing("LaneEndpoint.kind")
+                op = a[2][fields.index("kind")]
+                org = value_origins(rt, b, op)
+                n_sites += 1
+                fn = b.defpath.split("task::")[-1]
+                good = bool(org) and all(o == ("field", "LaneEndpoint.kind") or (o[0] == "call" and o[1].endswith("WarpLaneKind::uplink_kind")) for o in org)
+                if not good and org and all(o[0] == "const" for o in org):
+                    # the table restated in place (`match kind { Supply => UplinkKind::Supply, .. }`): accepted when it is the same table
+                    here = kind_table(b)
+                    good = bool(here) and all(here.get(k_) == v_ for k_, v_ in tab.items())
+                r.check(good, "LaneEndpoint.kind/%s/from-uplink_kind" % fn.replace("::{closure#0}", ""), b.loc(a[3]), "the endpoint's uplink kind is WarpLaneKind::uplink_kind() of the lane being registered",
+                        "the endpoint's uplink kind comes from %s, not from WarpLaneKind::uplink_kind(): a supply lane registered on this path is served by another kind of uplink (the value uplink overwrites what a slow remote has not yet been sent)" % sorted("%s %s" % o for o in org))
+        if n_sites < 3:
+            raise AnchorMissing("LaneEndpoint constructions: expected 3, found %d" % n_sites)
+        ils = ctx.saw(rt.fn(name="into_lane_stream"))
+        want = {"supply_lane": "Supply", "value_like_lane": "Value", "map_lane": "Map"}
+        for c in ils.calls:
+            if c.name in want:
+                labs = [l for d, l, _ in dom_guards(ils, c.block) if d.startswith("disc(") and d.endswith("kind)")]
+                r.check(labs == [want[c.name]], "into_lane_stream/%s=>%s" % (want[c.name], c.name), c.loc(), "UplinkKind::%s is read with ResponseReceiver::%s" % (want[c.name], c.name),
+                        "ResponseReceiver::%s is chosen for uplink kind %s" % (c.name, labs))
+        r.check({c.name for c in ils.calls} >= set(want), "into_lane_stream/all-three-receivers", where(ils), "each uplink kind has its receiver")
 
     with ctx.rule("C14.R3", "T2", "a supply uplink re-queues itself while it has data", floor=1) as r:
         uplinks.requeue_while_data(r, ctx, kinds=("Supply",))
